@@ -1,6 +1,7 @@
 import Driver.Parse
 import Rio.Model.Pack
 import Rio.Model.Warehouse
+import Rio.Model.Fetch
 namespace Rio.Driver
 open Rio
 
@@ -87,6 +88,31 @@ def packEngine : List String → String
       | some es =>
         let fm := if fmt = "zip" then PackFmt.zip else .tar
         showOutcomeId (packId Sha.sha384 fm ff es)
+    | _, _ => "bad-op"
+  | _ => "bad-op"
+
+/-- base58 decode is not needed: requested ids are compared as base58 strings of the model's hash bytes -/
+def fetchEngine : List String → String
+  | ["tar", req, f, mu, mg, head, fin, hs] =>
+    match parseUnpackFilter f, mu.toNat?, mg.toNat?, fromHex head, parseTarHdrs hs with
+    | some ff, some mu, some mg, some head, some hdrs =>
+      let e := if fin = "eof" then StreamEnd.eof else .corrupt
+      let s58 (h : Bytes) := (let s := base58Encode h; if s.isEmpty then "-" else s)
+      -- compare in base58 space: run the unpack model, then `prefilter != requested`
+      match unpackTar Sha.sha384 nilOps mu mg ff hdrs e () head with
+      | .ok (_, a, b) => if s58 a ≠ req then "err " ++ Cat.hashMismatch.tok else s!"ok {s58 b}"
+      | .err c => "err " ++ c.tok
+      | .panic _ => "panic"
+    | _, _, _, _, _ => "bad-op"
+  | ["mirror", req, head, fin, hs] =>
+    match fromHex head, parseTarHdrs hs with
+    | some head, some hdrs =>
+      let e := if fin = "eof" then StreamEnd.eof else .corrupt
+      let s58 (h : Bytes) := (let s := base58Encode h; if s.isEmpty then "-" else s)
+      match unpackTar Sha.sha384 nilOps 0 0 ⟨true, ffKeep, ffKeep, ffKeep, ffKeep, ffKeep, ffKeep⟩ hdrs e () head with
+      | .ok (_, a, _) => if s58 a ≠ req then "err " ++ Cat.hashMismatch.tok else "ok"
+      | .err c => "err " ++ c.tok
+      | .panic _ => "panic"
     | _, _ => "bad-op"
   | _ => "bad-op"
 
